@@ -747,8 +747,21 @@ func propC02(t *rapid.T) {
 				inputs = append(inputs, &masswallet.TxIn{TxId: strings.Repeat("ab", 32), Vout: 0})
 				bad = "unknown"
 			case 2:
-				inputs = append(inputs, inputs[0])
+				// the same outpoint again - in half of the cases spelled differently (transaction ids are
+				// hexadecimal text: upper-case names the same transaction)
+				dup := *inputs[0]
+				if rapid.Bool().Draw(t, "dupOtherSpelling") {
+					dup.TxId = strings.ToUpper(dup.TxId)
+					c.labels["duplicate-input-other-spelling"] = true
+				}
+				inputs = append(inputs, &dup)
 				bad = "duplicate"
+			case 3:
+				// a legitimate list with upper-case transaction ids
+				for _, in := range inputs {
+					in.TxId = strings.ToUpper(in.TxId)
+				}
+				c.labels["upper-case-txids"] = true
 			}
 			nOut := rapid.IntRange(1, 3).Draw(t, "manualOuts")
 			overspend := bad == "" && rapid.IntRange(0, 3).Draw(t, "overspend") == 0
